@@ -29,7 +29,8 @@ META = {
     "level_text": "Random dynamic circuits (≤5 MCMs, reset/postselect, nested qp.cond with else branches, measurement-value "
                   "arithmetic, MCM statistics) are executed with every mcm_method × postselect_mode and compared with the "
                   "sum over measurement histories computed by a numpy-only interpreter from the generator's AST.",
-    "level_note": "Trusts R-GATES/R-SV/R-BR. Statistical tests use Bernstein bounds (false-alarm ≤ 1e-9 per test by "
+    "level_note": "Trusts R-GATES/R-SV/R-BR. Broadcast gate parameters are driven in analytic mode only (flat programs, no "
+                  "postselection). Statistical tests use Bernstein bounds (false-alarm ≤ 1e-9 per test by "
                   "construction) and a two-stage confirmation; they detect frequency deviations ≳ 0.05–0.1 only. "
                   "'elif' branches with MCM predicates are documented as unsupported in tape mode (ConditionalTransformError) "
                   "and are exercised as a rejection only. jax/torch interfaces and lightning devices are not driven. "
@@ -37,7 +38,7 @@ META = {
     "design_ref": "7/C21",
     "shards": {"quick": 3, "thorough": 16},
     "budget_s": {"quick": 55, "thorough": 420},
-    "min_evals": {"quick": 250, "thorough": 4000},
+    "min_evals": {"quick": 250, "thorough": 3000},
     "deciding": ["mcm.analytic", "mcm.shots", "defer.tape"],
     "rule": "G-DYN AST programs (2–4 wires with hostile labels, 1–5 MCMs, reset/postselect mixes, conds on arithmetic/"
             "boolean expressions of several MCMs, nested conds, 1–3 terminal measurements mixing wire observables and MCM "
@@ -463,7 +464,7 @@ def compare_analytic(m, r, ref, eff_method, tag, hyps=(), meas=(), ctxinfo=None)
     return out
 
 
-def run_case(ctx, qp, prog, meas, R, method, mode, shots, seed, fp, stage=1, count=True):
+def run_case(ctx, qp, prog, meas, R, method, mode, shots, seed, fp, stage=1, count=True):  # noqa: ARG001
     """Execute one configuration and compare.  Returns list of (monitor, message, mech, observed, expected)."""
     from pv.gen import c21_dyn as D
 
@@ -535,6 +536,67 @@ def run_case(ctx, qp, prog, meas, R, method, mode, shots, seed, fp, stage=1, cou
                             msg += f" [consistent with the wrong-semantics hypothesis '{htag}']"
                             break
                 out.append((mon, f"[{tag}] {m[0]} shots={sh}: {msg}", mech, None, None))
+    return out
+
+
+def run_batched(ctx, qp, prog, meas, Rs, method, seed, in_cond=False):
+    """Analytic execution of a program with broadcast gate parameters; reference = one R-BR run per batch entry."""
+    from pv.gen import c21_dyn as D
+
+    mon = "mcm.analytic"
+    tag = f"{method}/broadcast/analytic"
+    out = []
+    try:
+        qn, _ = make_qnode(qp, prog, meas, method, None, None, seed)
+        res = qn()
+    except Exception as e:  # noqa: BLE001
+        ctx.ev(mon)
+        mech = classify_exception(e, method, None, prog, meas)
+        if method == "deferred" and in_cond:
+            mech = "deferred-broadcast-conditional-op-batch-size"
+        return [(mon, f"[{tag}] {type(e).__name__}: {str(e)[:200]} @ {last_frames(e)}", mech, None, None)]
+    rs = (res,) if len(meas) == 1 else tuple(res)
+    if len(rs) != len(meas):
+        ctx.ev(mon)
+        return [(mon, f"[{tag}] {len(rs)} results for {len(meas)} measurements", f"{method}-result-arity", None, None)]
+    out = _compare_batched(ctx, prog, meas, rs, Rs, method, tag)
+    if method == "deferred" and in_cond:
+        # mechanism: a broadcast parameter sits in a classically controlled gate; deferral wraps it in a generic Controlled
+        # operator whose batch_size is None (ControlledOp2 does not delegate batch_size to its base)
+        out = [(mo, msg + " [broadcast parameter inside a conditional gate]", "deferred-broadcast-conditional-op-batch-size", o, e) for mo, msg, _m, o, e in out]
+    return out
+
+
+def _compare_batched(ctx, prog, meas, rs, Rs, method, tag):
+    from pv.gen import c21_dyn as D
+
+    mon = "mcm.analytic"
+    out = []
+    for m, r in zip(meas, rs):
+        ctx.ev(mon)
+        exp = np.stack([np.asarray(ref_distribution(Rb, m)["value"], dtype=float) for Rb in Rs])
+        try:
+            got = np.asarray(r, dtype=float)
+        except Exception:  # noqa: BLE001
+            out.append((mon, f"[{tag}] {m[0]}: non-numeric result", f"{method}-analytic-type", None, None))
+            continue
+        if got.size != exp.size:
+            n_wire = sum(1 for x in meas if not x[0].endswith("_mv"))
+            mech = "tree-traversal-analytic-insert-mcms-single-wire-measurement" if (method == "tree-traversal" and n_wire == 1 and len(meas) > 1 and not m[0].endswith("_mv")) \
+                else f"{method}-analytic-broadcast-shape"
+            out.append((mon, f"[{tag}] {m[0]}: shape {got.shape} vs {exp.shape}", mech, list(got.shape), list(exp.shape)))
+            continue
+        g2 = got.reshape(exp.shape)
+        if not np.all(np.abs(g2 - exp) <= ATOL * max(1.0, float(np.max(np.abs(exp))))):
+            mech = f"{method}-analytic-broadcast-value"
+            if method == "tree-traversal":
+                last = prog["n_mcm"] - 1
+                if any(D.bool_sensitive(e, {last}) for e in D.all_exprs(prog, meas)):
+                    mech = "tree-traversal-bool-outcome-arith"
+            out.append((mon, f"[{tag}] {m[0]}: {g2} vs per-entry branch averages {exp}", mech, g2, exp))
+        elif got.shape != exp.shape:
+            mech = "tree-traversal-analytic-mcm-stat-extra-dim" if (method == "tree-traversal" and m[0].endswith("_mv")) else f"{method}-analytic-broadcast-shape"
+            out.append(("mcm.shape", f"[{tag}] {m[0]}: result has shape {got.shape}, expected {exp.shape}", mech, list(got.shape), list(exp.shape)))
     return out
 
 
@@ -649,8 +711,8 @@ def run(ctx):
 
     warnings.filterwarnings("ignore")
     rng = ctx.rng
-    n_an = ctx.n(72, 5200)
-    n_sh = ctx.n(18, 560)
+    n_an = ctx.n(72, 1400)
+    n_sh = ctx.n(18, 260)
     base = ctx.shard * 1_000_000
     i = 0
     # ---------------- documented rejection: elif with MCM predicate
@@ -678,7 +740,6 @@ def run(ctx):
         nested = crng.random() < 0.2
         prog = D.gen_program(crng, max_mcm=5 if crng.random() < 0.7 else 3, nested_prob=0.5 if nested else 0.0,
                              p_postselect=0.25 if crng.random() < 0.6 else 0.0)
-        batch = None
         meas = gen_measurements(crng, prog, shots=None)
         R = None
         with ctx.guard("reference"):
@@ -703,8 +764,20 @@ def run(ctx):
             emit(viol, prog, meas, {"method": method, "mode": mode, "shots": None})
         with ctx.guard("defer.tape"):
             emit(defer_tape_check(ctx, qp, prog, meas, R), prog, meas, {"method": "defer_measurements(tape)"})
+        # broadcast gate parameters (flat programs without postselection): one reference run per batch entry
+        if not D.has_nested(prog["stmts"]) and not D.postselects(prog) and crng.random() < 0.12:
+            with ctx.guard("broadcast"):
+                bprog, B, in_cond = D.add_broadcast(crng, prog)
+                if bprog is not None:
+                    from pv.ref import c21_branch as br
+
+                    Rs = [br.enumerate_branches(D.rbr_program(bprog, batch_index=b), bprog["wires"]) for b in range(B)]
+                    ctx.case(fingerprint(repr(bprog), repr(meas)), nontrivial=True, cls="broadcast",
+                             sample={"program": D.describe(bprog), "meas": meas, "batch": B})
+                    for method in ("deferred", "tree-traversal"):
+                        emit(run_batched(ctx, qp, bprog, meas, Rs, method, 1, in_cond), bprog, meas, {"method": method, "broadcast": B, "in_cond": in_cond})
     # ---------------- deterministic postselection statistics with shots (exact support checks, all methods)
-    for t in range(ctx.n(9, 400)):
+    for t in range(ctx.n(9, 160)):
         if not ctx.more():
             break
         ctx.case_index = base + 800_000 + t
